@@ -203,6 +203,8 @@ struct World {
     sent_cookies: Vec<Vec<u8>>,
     // bookkeeping for the oracles
     meas_since_send: usize,
+    /// datagrams since the last request that were not accepted (forged, NAK, stale, …)
+    junk_since_send: usize,
     sends: usize,
     polls_since_usable: usize,
     usable_answers: usize,
@@ -379,6 +381,7 @@ fn new_world(w: &[&str]) -> World {
         last_seal: None,
         sent_cookies: vec![],
         meas_since_send: 0,
+        junk_since_send: 0,
         sends: 0,
         polls_since_usable: 0,
         usable_answers: 0,
@@ -503,6 +506,31 @@ fn exec_timer(wd: &mut World, w: &[&str], run: &mut Run, prop: Prop, key: &mut S
         run.hit(&format!("timer-send-v{}{}", s.version, if s.upg { "-upg" } else { "" }));
         key.push_str(&format!("S{}p{}", s.version, s.poll));
         // ---- oracles on the implementation alone
+        if matches!(prop, Prop::C33 | Prop::C11) && !wd.nts {
+            // (plain sources: every poll is a request sent; an NTS source also shifts its register when it resets for lack
+            // of a usable cookie)
+            // the harness' own reach register: an answer was accepted within the last 8 polls, this one included
+            let k = wd.polls_since_usable + 1;
+            let own_reachable = wd.usable_answers > 0 && k <= 7;
+            match usable {
+                Some(true) if !own_reachable => run.oracle_fail("usable_iff_accept", &format!("polls_since_answer={} answers={}", k, wd.usable_answers),
+                    "set_usable(true) at a poll although no answer was accepted within the last eight polls (unreachable sources are never used)"),
+                Some(false) if own_reachable => {
+                    // legitimate only if another clause forbids use
+                    let si = wd.source.source_info.read().unwrap();
+                    let snap = NtpSourceSnapshot::from_source(&wd.source);
+                    let local_ids: Vec<u32> = si.ip_list.iter().map(|ip| refid_u32(ReferenceId::from_ip(*ip))).collect();
+                    let other = snap.stratum >= si.local_stratum
+                        || (snap.stratum != 1 && local_ids.contains(&refid_u32(snap.source_id)))
+                        || snap.bloom_filter.map(|f| contains_own(&wd.server_id, &wd.adv_filter, &f)).unwrap_or(false);
+                    if !other {
+                        run.oracle_fail("usable_iff_accept", &format!("polls_since_answer={} usable=0", k), "set_usable(false) for a reachable source that no clause excludes");
+                    }
+                }
+                _ => {}
+            }
+            run.hit(if own_reachable { "timer-own-reach-nonzero" } else if wd.usable_answers > 0 { "timer-own-reach-shifted-out" } else { "timer-never-answered" });
+        }
         let poll = s.poll as i8;
         let interval_ns: u128 = (1u128 << (poll.clamp(0, 31) as u32)) * 1_000_000_000;
         if prop == Prop::C10 {
@@ -570,6 +598,7 @@ fn exec_timer(wd: &mut World, w: &[&str], run: &mut Run, prop: Prop, key: &mut S
         wd.prev = wd.cur.take();
         wd.cur = sent.clone();
         wd.meas_since_send = 0;
+        wd.junk_since_send = 0;
         wd.sends += 1;
         wd.polls_since_usable += 1;
     } else if out.is_empty() {
@@ -592,6 +621,14 @@ fn exec_timer(wd: &mut World, w: &[&str], run: &mut Run, prop: Prop, key: &mut S
     if out == "reset" || out == "demobilize" {
         run.hit(&format!("timer-{}", out));
         key.push_str(if out == "reset" { "R" } else { "D" });
+        if prop == Prop::C09 && !wd.nts && snap_before.reach.0 == 0 && tries_before >= 3 {
+            // C09: "... only marks an unauthenticated source, which is demobilised solely if it also stays unreachable"
+            if (out == "demobilize") != wd.deny_seen {
+                run.oracle_fail("demobilised_iff_deny_seen", &format!("deny_seen={} action={}", wd.deny_seen as u8, out),
+                    "unreachable source: Demobilize must be returned exactly when a valid unauthenticated DENY/RSTR answer was seen since the last accepted answer (else Reset)");
+            }
+            run.hit(if wd.deny_seen { "c09-unreachable-deny-seen" } else { "c09-unreachable-no-deny" });
+        }
         if prop == Prop::C11 {
             let unreachable = snap_before.reach.0 == 0 && tries_before >= 3;
             let nts_no_cookie = wd.nts && (had_cookies == Some(0) || oldest.as_ref().map(|c| c.len() > 724).unwrap_or(false));
@@ -885,6 +922,24 @@ fn exec_incoming(wd: &mut World, w: &[&str], run: &mut Run, prop: Prop, key: &mu
         || wd.source.have_deny_rstr_response != deny_before
         || snap_after.reach.0 != snap_before.reach.0
         || snap_after.stratum != snap_before.stratum;
+    // "an answer that must be accepted": parsed, bound to the CURRENT pending request (origin / cookie, and for NTS a
+    // matching unique identifier in the authenticated or encrypted part and no contradicting one), really sealed by this
+    // harness under the s2c key (NTS), expected version, stratum 1..16, server mode, within the window, and no answer
+    // to this request was accepted before — whatever unauthenticated / invalid datagrams arrived in between
+    let must_accept = rec.is_some() && org_match && uid_bound && within && version_ok && (1..=16).contains(&stratum) && mode == 4
+        && (!wd.nts || wd.last_s2c_sealed);
+    if matches!(prop, Prop::C07 | Prop::C08 | Prop::C09) {
+        if must_accept {
+            run.hit(if wd.junk_since_send > 0 { "genuine-answer-after-other-datagrams" } else { "genuine-answer-first" });
+            if !accepted {
+                run.oracle_fail("nak_is_inert", &format!("before={} nts={} v={}", wd.junk_since_send, wd.nts as u8, version),
+                    "the genuine answer to the pending request was not accepted although no answer to that request had been accepted before (an earlier unauthenticated / inert datagram changed the source's state)");
+            }
+        }
+        if !accepted {
+            wd.junk_since_send += 1;
+        }
+    }
     if accepted {
         wd.meas_since_send += 1;
     }
@@ -1602,7 +1657,19 @@ fn gen_script(rng: &mut Rng, prop: Prop) -> Vec<String> {
         Prop::C13 => *rng.pick(&[40u64, 80, 95, 100]),
         _ => *rng.pick(&[50u64, 80, 95]),
     };
-    if prop == Prop::C11 && !g.nts && rng.chance(1, 5) {
+    if prop == Prop::C33 && !g.nts && rng.chance(1, 6) {
+        // 1-3 answered polls, then 7-10 polls without answer: the source must stop being usable exactly at the 8th
+        let des = g.min as i64;
+        for _ in 0..rng.usize(1, 3) {
+            ops.push(format!("timer dt=16000000000 des={}", des));
+            ops.push(format!("incoming dt=1000000 sts={:016x} rcv={:016x}{}", rng.next_u64(), rng.next_u64(), gen_clean_answer(rng, &g, prop)));
+        }
+        for _ in 0..rng.usize(7, 10) {
+            ops.push(format!("timer dt=16000000000 des={}", des));
+        }
+        return ops;
+    }
+    if (prop == Prop::C11 || prop == Prop::C09) && !g.nts && rng.chance(1, 5) {
         // structured history for the deny clause: some answered polls, then a valid unauthenticated DENY/RSTR answer
         // (sometimes none, sometimes followed by one more usable answer, which clears it), then silence until the
         // source is unreachable and beyond
@@ -1639,6 +1706,20 @@ fn gen_script(rng: &mut Rng, prop: Prop) -> Vec<String> {
                 ops.push(format!("timer dt=16000000000 des={}", des));
                 ops.push(format!("incoming dt=1000000 sts={:016x} rcv={:016x}{}", rng.next_u64(), rng.next_u64(), gen_clean_answer(rng, &g, prop)));
             }
+            if rng.chance(1, 3) {
+                // 1-2 answers that ARE accepted (measurement, reach) but leave the source unusable: stratum 16 is never
+                // below the local stratum. They are "usable answers" in the property's sense (they clear the deny mark)
+                for _ in 0..rng.usize(1, 2) {
+                    ops.push(format!("timer dt=16000000000 des={}", des));
+                    ops.push(format!("incoming dt=1000000 sts={:016x} rcv={:016x} d.v=exp d.org=match d.st=16 d.rid=2130706433 d.pl={} d.an=0 d.mode=4 d.lp=0 d.rx={:016x} d.tx={:016x} d.rd=1 d.rdp=1 d.auth=none d.A=- d.E=- d.U=draft",
+                        rng.next_u64(), rng.next_u64(), des as i8 as u8, rng.next_u64(), rng.next_u64()));
+                }
+                // then silence until the source is unreachable and beyond
+                for _ in 0..rng.usize(8, 11) {
+                    ops.push(format!("timer dt=16000000000 des={}", des));
+                }
+                return ops;
+            }
         }
         for _ in 0..rng.usize(3, 11) {
             ops.push(format!("timer dt=16000000000 des={}", des));
@@ -1663,6 +1744,17 @@ fn gen_script(rng: &mut Rng, prop: Prop) -> Vec<String> {
         ops.push(format!("timer dt={} des={}", dt, des));
         since_timer = 0;
         i += 1;
+        if matches!(prop, Prop::C07 | Prop::C08 | Prop::C09) && rng.chance(1, 8) {
+            // an unauthenticated NTS-NAK (clear-text uid) — inert — followed by the genuine answer within the same poll
+            let n_nak = rng.usize(1, 2);
+            for _ in 0..n_nak {
+                ops.push(format!("incoming dt={} sts=0000000000000001 rcv=0000000000000002 d.v=exp d.org=match d.st=0 d.rid={} d.pl=0 d.an=1 d.mode=4 d.lp=0 d.rx=0000000000000001 d.tx=0000000000000002 d.rd=1 d.rdp=1 d.auth=none d.A=- d.E=- d.U={}draft",
+                    rng.below(100_000_000), KISS_NTSN, if g.nts { "uid:match," } else { "" }));
+            }
+            ops.push(format!("incoming dt={} sts={:016x} rcv={:016x}{}", rng.below(100_000_000), rng.next_u64(), rng.next_u64(), gen_clean_answer(rng, &g, prop)));
+            i += n_nak + 1;
+            continue;
+        }
         if rng.below(100) < answer_rate {
             // 0–3 incoming datagrams for this poll
             let k = match rng.below(10) {
